@@ -663,8 +663,17 @@ pub fn handler_script(allow_err: bool) -> BoxedStrategy<Vec<HOp>> {
         .boxed()
 }
 
+/// Noise a single-request client may send (constructed, not filtered: kinds whose reply depends
+/// on the protocol phase are mapped onto harmless ones).
 pub fn mgmt_noise(max_pair: u32) -> BoxedStrategy<Noise> {
-    traffic::noise(max_pair).prop_filter("phase-independent", conn_noise_ok).boxed()
+    traffic::noise(max_pair)
+        .prop_map(|n| match n {
+            Noise::ForeignBegin { id_delta, role, flags, pad } if (1..=3).contains(&role) => Noise::ForeignBegin { id_delta, role: role + 3, flags, pad },
+            Noise::DupBegin { flags, pad, .. } => Noise::ClientOutput { ty: flags % 5, id: flags as u16, len: pad as u16, pad },
+            Noise::StaleParams { len, pad } => Noise::UnknownType { ty: pad, id: 0, len, pad },
+            other => other,
+        })
+        .boxed()
 }
 
 pub fn conn_req(keep_weight: f64, allow_err: bool, wait_mgmt: BoxedStrategy<bool>) -> BoxedStrategy<ConnReq> {
